@@ -1015,7 +1015,8 @@ impl<'a, 'src: 'a> Compiler<'a, 'src> {
       .offset_line(offset as usize)
       .expect("Line offset out of bounds");
 
-    self.write_instruction(op_code, line as u16 + 1);
+    // the line table holds u16, lines past its range are reported as the last one
+    self.write_instruction(op_code, u16::try_from(line + 1).unwrap_or(u16::MAX));
   }
 
   /// write instruction to the current function
